@@ -284,6 +284,8 @@ func (u *Unit) loopHeapEffects(n ast.Node) (all bool, some map[string]bool) {
 					switch h {
 					case "bytes":
 						some[u.elemHeap(types.Typ[types.Uint8])] = true
+					case "written", "consumed":
+						some[u.ghostHeap(h)] = true
 					case "all":
 						all = true
 					}
@@ -345,6 +347,10 @@ func (u *Unit) cellHeapName(pointee types.Type) string {
 }
 
 func (u *Unit) modifiesHeap(sig *types.Signature, m Clause, some map[string]bool) bool {
+	if name, _, ok := ghostModifies(m); ok {
+		some[u.ghostHeap(name)] = true
+		return true
+	}
 	id, ok := ast.Unparen(m.Expr).(*ast.Ident)
 	if !ok {
 		return false
@@ -933,6 +939,12 @@ func (u *Unit) frameGoals(st *State, only map[string]bool) []frameGoal {
 	mapMods := map[string]bool{}
 	oldEnv := &SpecEnv{u: u, st: u.entry, old: u.entry, names: map[string]Term{}, cs: u.cs, pkg: u.pkg.Types, own: true, scopePos: u.bodyPos, inOld: true}
 	for _, m := range u.ct.Modifies {
+		if name, arg, ok := ghostModifies(m); ok {
+			ref := oldEnv.eval(arg)
+			h := u.ghostHeap(name)
+			cellMods[h] = append(cellMods[h], ref.S)
+			continue
+		}
 		t := oldEnv.eval(m.Expr)
 		if t.T == nil {
 			continue
